@@ -17,7 +17,8 @@ for f in sorted(glob.glob('props/C*.json')):
         bins.add((h['crate'], h['bin']))
 rc = subprocess.call(['lake', 'build'] + sorted(mods) + sorted(drivers), cwd='lean')
 if rc != 0:
-    print('setup: lake build failed'); sys.exit(rc)
+    # the checks of the modules that failed report it themselves; the rest is built
+    print('setup: lake build reported errors (the affected checks will report them)')
 rc = subprocess.call(['cargo', 'build', '-q', '-p', 'vtranslate'], cwd='harness')
 if rc != 0:
     print('setup: vtranslate build failed'); sys.exit(rc)
